@@ -355,8 +355,15 @@ def _impl_ubx(filt, ops, check_mutation=True):
             # the API takes any bytes-like / iterable of ints: alternate the container type
             data = o[1]
             kind = (len(data) + n_op) % 5
-            p.process(bytes(data) if kind == 0 else bytearray(data) if kind == 1 else list(data) if kind == 2
-                      else iter(bytes(data)) if kind == 3 else (x for x in bytes(data)))
+            try:
+                p.process(bytes(data) if kind == 0 else bytearray(data) if kind == 1 else list(data) if kind == 2
+                          else iter(bytes(data)) if kind == 3 else (x for x in bytes(data)))
+            except Exception as e_:
+                if kind < 3:
+                    raise
+                # an iterator / generator used to be accepted: report it in the result and go on with the same bytes
+                outs.append(f'!{type(e_).__name__}(process-given-an-{"iterator" if kind == 3 else "generator"})')
+                p.process(bytes(data))
             if n_op % 2:
                 other.process(b'\xb5\x62\x06\x01\x02\x00\xaa')
         elif o[0] == 'F':
